@@ -245,7 +245,7 @@ NEXT_IT = "core::iter::traits::iterator::Iterator::next"
 
 MANIFEST = {
     "category": "other",
-    "technique": "taint (backward closure cut at sanitizers) over every sent message field + protocol extraction/duality (E8) + provenance of salts and gather arguments",
+    "technique": "taint (backward closure cut at sanitizers) over every sent message field + protocol extraction/duality (E8) + provenance of salts and gather arguments; exhaustive intersection loop; edge reachability of the restricted-sharing branch",
     "text": "Static: no field of any protocol message derives from raw topics or the intersection without the sanitizer; the two roles are dual with clean error exits; salt bytes and argument orders agree across the roles; node infos are gathered for the intersection only. Hash security and value equality of the intersections are not decided.",
     "note": "Trusted: rustc MIR, driver, rule engine; hash_vector is the only sanitizer (its body hashes every element — checked by reading, summarised as axiom).",
 }
